@@ -32,7 +32,7 @@ RULE = (
 )
 ASSUMPTIONS = [
     "vlib.tngrammar is a faithful rendition of the grammar in the property statement",
-    "strings beyond ~300 tokens / depth 40 are not explored (CPython recursion bound of the implementation)",
+    "names of thousands of tokens are generated too; the implementation's recursion per sibling / nesting level is recorded as open finding F10",
 ]
 REQUIRED_TAGS = {"quick": ["accepted", "rejected"], "thorough": ["accepted", "rejected"]}
 
@@ -45,7 +45,27 @@ def _gt():
 
 
 def impl_tree(st):
-    return (st.name, [impl_tree(x) for x in st.subtypes])
+    """SubtypeTree -> (name, [subtrees]) without recursion"""
+    root = (st.name, [])
+    work = [(st, root)]
+    while work:
+        node, out = work.pop()
+        for sub in node.subtypes:
+            child = (sub.name, [])
+            out[1].append(child)
+            work.append((sub, child))
+    return root
+
+
+def trees_equal(a, b):
+    """structural equality without recursion (names may nest thousands deep)"""
+    work = [(a, b)]
+    while work:
+        x, y = work.pop()
+        if x[0] != y[0] or len(x[1]) != len(y[1]):
+            return False
+        work.extend(zip(x[1], y[1]))
+    return True
 
 
 def check_string(s, res, public=True):
@@ -63,7 +83,7 @@ def check_string(s, res, public=True):
     if want is None:
         res.tag("rejected")
         if exc is None:
-            res.fail("C15:accepts-invalid", "%r accepted as %r" % (s, impl_tree(got)))
+            res.fail("C15:accepts-invalid", "%r accepted as %r" % (s[:300], tngrammar.to_string(impl_tree(got))[:300]))
         elif type(exc) is not ser.TypeNameError:
             res.fail("C15:wrong-exception:" + type(exc).__name__, "%r raised %r" % (s, exc))
     else:
@@ -72,8 +92,8 @@ def check_string(s, res, public=True):
             res.fail("C15:rejects-valid:" + type(exc).__name__, "%r raised %r" % (s, exc))
         else:
             t = impl_tree(got)
-            if t != want:
-                res.fail("C15:wrong-tree", "%r -> %r, expected %r" % (s, t, want))
+            if not trees_equal(t, want):
+                res.fail("C15:wrong-tree", "%r -> %r, expected %r" % (s[:300], tngrammar.to_string(t)[:300], tngrammar.to_string(want)[:300]))
             elif tngrammar.to_string(t) != s:
                 res.fail("C15:print-mismatch", "%r" % (s,))
             if not isinstance(got.subtypes, (tuple, list)):
@@ -234,9 +254,50 @@ def _apply_edit(s, op, pos, tok):
     return s + tok
 
 
+def long_strategy():
+    """names far beyond the ordinary: thousands of siblings / nesting levels /
+    both, valid and with one edit"""
+    from hypothesis import strategies as st
+
+    @st.composite
+    def case(draw):
+        n = draw(st.sampled_from([300, 600, 950, 1200, 2000, 4000]))
+        shape = draw(st.sampled_from(["siblings", "nest", "comb"]))
+        nm = draw(st.sampled_from(["a", "uint8_t", "é"]))
+        if shape == "siblings":
+            s = "tuple<" + ",".join([nm] * n) + ">"
+        elif shape == "nest":
+            s = (nm + "<") * n + nm + ">" * n
+        else:
+            inner = "t<" + ",".join([nm] * (n // 20)) + ">"
+            s = ("s<" * 20) + inner + (">" * 20)
+        kind = draw(st.sampled_from(["valid", "valid", "mutant"]))
+        if kind == "mutant":
+            op, pos, tok = draw(st.tuples(st.sampled_from(["ins", "del", "rep", "append"]), st.integers(0, 10**6),
+                                          st.sampled_from(["<", ">", ",", ">>", ",,", "<>"])))
+            s = _apply_edit(s, op, pos, tok)
+        return {"s": s, "kind": "long-" + kind}
+
+    return case()
+
+
+def run_long_case(case):
+    res = pbt.CaseResult()
+    check_string(case["s"], res, public=False)
+    res.nontrivial = True
+    res.tag("kind:" + case["kind"])
+    return res
+
+
 def run_job(job):
     if job["kind"] == "enum":
         return run_enum(job)
+    if job["kind"] == "long":
+        import sys
+
+        sys.setrecursionlimit(max(sys.getrecursionlimit(), 1000))
+        return pbt.run_hypothesis(long_strategy(), run_long_case, prefix=ID, n_examples=job["n"], seed=job["seed"],
+                                  max_shrink_evals=job.get("shrink", 60))
     return pbt.run_hypothesis(
         strategies(),
         run_case,
@@ -248,6 +309,8 @@ def run_job(job):
 
 
 def replay(doc):
+    if str(doc["case"].get("kind", "")).startswith("long-"):
+        return run_long_case(doc["case"])
     return run_case(doc["case"])
 
 
@@ -305,4 +368,6 @@ def jobs(tier, seed):
                 "shrink": 300 if tier == "quick" else 1500,
             }
         )
+    out.append({"name": "long", "kind": "long", "n": 60 if tier == "quick" else 1500, "seed": seed * 1000 + 99,
+                "shrink": 40 if tier == "quick" else 200})
     return out + enum
